@@ -4,7 +4,7 @@ from tools import vlib, t3
 from tools.vlib import hx, unhx
 
 MODULE = "PropC18"
-THEOREMS = ["C18_code_conforms", "C18_one_carrier", "C18_once", "C18_command", "C18_resolvable", "C18_example"]
+THEOREMS = ["C18_code_conforms", "C18_one_carrier", "C18_once", "C18_command", "C18_resolvable", "C18_example", "C18_cone_conforms"]
 
 
 def case(args):
